@@ -819,5 +819,12 @@ def units(tier):
             us.append(RoundTrip(*t))
     # longest first, for the process pool
     us.sort(key=lambda u: 0 if u.cls in (PlayerListItemPacket, JoinGamePacket, MapPacket) else 1)
-    from . import c05_lists
-    return us + [GenericDefinition(), FieldString(), Ids()] + c05_lists.units(tier)
+    from . import c05_lists, c02
+    ts = []
+    for u in c02.units(tier):
+        # the round trips above go through the field types' contracts (S2/S3); their byte-level proofs - every value of the
+        # domain can be written, decoding inverts encoding, for VarInt AND VarLong, arrays of any length, the buffer they
+        # are observed through - are claimed here too, so a field type that stops round-tripping fails this property as well
+        u.prop, u.name = 'C05', 'C05.types.' + u.name.split('.', 1)[1]
+        ts.append(u)
+    return us + [GenericDefinition(), FieldString(), Ids()] + c05_lists.units(tier) + ts
